@@ -252,7 +252,9 @@ func runC18(p *Program, e *Engine, r *Result, tier string) {
 			}
 			if st.Val == ssa.Value(strParams[1]) {
 				g, _ := v.Cond.everyConj(func(c Conj) bool {
-					return c.has(func(l Lit) bool { return l.A.Kind == AkCmp && l.Neg && l.A.K == `c:""` && l.A.Subj == "p:"+strParams[1].Name() })
+					return c.has(func(l Lit) bool {
+						return l.A.Kind == AkCmp && l.Neg && l.A.K == `c:""` && l.A.Subj == "p:"+strParams[1].Name()
+					})
 				})
 				if g {
 					linkOK = true
